@@ -397,7 +397,7 @@ func c02Respell(p c02Posting) []c02Posting {
 			return false
 		}
 		i := strings.IndexAny(txt, ".,")
-		return len(txt)-i-1 == 3 && strings.Trim(txt[:i], "0") != ""
+		return len(txt)-i-1 == 3 && strings.Trim(txt[i+1:], "0123456789") == "" && strings.Trim(txt[:i], "0") != ""
 	}
 	cands := []string{}
 	if frac != "" {
@@ -423,6 +423,13 @@ func c02Respell(p c02Posting) []c02Posting {
 		cands = append(cands, strings.TrimSuffix(canon, "000")+"E3", strings.TrimSuffix(canon, "000")+"E+3")
 	} else {
 		cands = append(cands, canon+"E0")
+	}
+	// exponent forms with a decimal mark in the mantissa (1.25E1 for 12.5, 1,5E2 for 150)
+	if d := strings.TrimLeft(intPart, "0"); d != "" {
+		digits := strings.TrimRight(d+frac, "0")
+		if len(digits) >= 2 && len(digits) <= 4 {
+			cands = append(cands, fmt.Sprintf("%s.%sE%d", digits[:1], digits[1:], len(d)-1), fmt.Sprintf("%s,%se%d", digits[:1], digits[1:], len(d)-1))
+		}
 	}
 	for _, cnd := range cands {
 		if ambiguous(cnd) {
